@@ -49,7 +49,7 @@ def func2func (oldk : KV) (oldW : Option (List Rat)) (newk : KV) (newW : Option 
   | some ns => if ns.length > newk.npts then throw .other
   | none => pure ()
   let g ← gramMatrices oldk oldW newk newW
-  let GGinv ← exceptOfOption .other (invert? g.GG)
+  let GGinv ← exceptOfOption .other (invertChecked? g.GG)
   match fitNodes with
   | none =>
     let T := matMul GGinv g.GF
@@ -61,7 +61,7 @@ def func2func (oldk : KV) (oldW : Option (List Rat)) (newk : KV) (newW : Option 
     let F := transpose Fm
     let G := transpose GT
     let LL := matMul G (matMul GGinv GT)
-    let LLinv ← exceptOfOption .other (invert? LL)
+    let LLinv ← exceptOfOption .other (invertChecked? LL)
     let LG := matMul LLinv (matMul G GGinv)
     let QG := matSub GGinv (matMul GGinv (matMul GT LG))
     let QF := matMul GGinv (matMul GT LLinv)
